@@ -86,7 +86,7 @@ func runC18(e *env) error {
 	r := e.r.Fork(18)
 	nb, per := 2, 20
 	if e.thorough {
-		nb, per = 8, 40
+		nb, per = 8*e.scale, 40
 	}
 	for bi := 0; bi < nb; bi++ {
 		var fs []*famOut
